@@ -52,6 +52,22 @@ Theorem C03_verify_first : forall (D : Type) (restore : dg -> D) rf (rules : lis
 Proof. exact verify_first. Qed.
 Print Assumptions C03_verify_first.
 
+(* verification is a pure function of the graph: on one verifier INSTANCE used for several
+   graphs the verdict of the k-th call equals the verdict of a fresh verifier on that graph
+   alone, the instance is unchanged by a call, and the position in the sequence is irrelevant *)
+Theorem C03_verify_is_stateless : forall (D : Type) (v : verifier D) gs,
+  call_seq v gs = map (verify (v_restore v) (v_raise v) (v_rules v)) gs /\
+  (forall k g, nth_error gs k = Some g ->
+               nth_error (call_seq v gs) k = Some (verify (v_restore v) (v_raise v) (v_rules v) g)).
+Proof. exact (@verify_is_stateless). Qed.
+Print Assumptions C03_verify_is_stateless.
+
+Theorem C03_verify_order_irrelevant : forall (D : Type) (v : verifier D) pre pre' g post post',
+  nth_error (call_seq v (pre ++ g :: post)) (length pre) =
+  nth_error (call_seq v (pre' ++ g :: post')) (length pre').
+Proof. exact (@verify_order_irrelevant). Qed.
+Print Assumptions C03_verify_order_irrelevant.
+
 (* ---------------------------------------------------------------------------------------- *)
 (* 2. each built-in rule holds exactly when the structural condition of its name is true     *)
 (* ---------------------------------------------------------------------------------------- *)
@@ -302,6 +318,15 @@ Example ex_nested :
   verify (restore_of AdNx) false (map denote [CU false (UNested [BHasRoot; BNoCycle])]) ex_dag = Accept /\
   verify (restore_of AdIdentity) true (map denote [CU true (UNested [BNoCycle])]) ex_cyc = RaiseVerification.
 Proof. vm_compute. repeat split. Qed.
+
+(* twins with the same descriptive id (all nodes named alike): two sinks sharing an ancestor
+   (accepted) and the same with the ancestor duplicated (two components, rejected) - one
+   instance, both orders *)
+Example ex_twins :
+  let v := {| v_restore := restore_of AdIdentity; v_raise := false; v_rules := map builtin_rule default_dag_rules |} in
+  call_seq v [[[]; [0]; [0]]; [[]; []; [0]; [1]]] = [Accept; Reject] /\
+  call_seq v [[[]; []; [0]; [1]]; [[]; [0]; [0]]; [[]; []; [0]; [1]]] = [Reject; Accept; Reject].
+Proof. vm_compute. split; reflexivity. Qed.
 
 (* a rule raising a foreign exception is outside verify_iff, and its exception escapes *)
 Example ex_other : verify (restore_of AdIdentity) false (map denote [CU false (UConst ROther)]) ex_dag = RaiseOther.
